@@ -1,4 +1,4 @@
-(* C14 phase 2: agreement of the two reader models on modules without blackbox instances (part B2) *)
+(* C14 phase 2: agreement of the two reader models on the documented subset (part B2) *)
 From stdpp Require Import strings gmap sets pretty.
 From CG Require Import Proofs.FvA0.
 From CG Require Import Model.FastVerilog Proofs.FastVerilogProofs Gen.Gen_fastv.
